@@ -105,6 +105,15 @@ class Fn:
         return [s for s in stmts_of(self.node) if isinstance(s, ast.Return)]
 
     # ---- control -----------------------------------------------------------
+    def block_of(self, st: ast.stmt) -> list[ast.stmt]:
+        """the statement list (body / orelse / handler body ...) that directly contains st"""
+        for n in ast.walk(self.node):
+            for f in ("body", "orelse", "finalbody"):
+                b = getattr(n, f, None)
+                if isinstance(b, list) and any(x is st for x in b):
+                    return b
+        raise AnalysisError(f"{self.ref}: statement has no enclosing block")
+
     def before(self, a: ast.AST, b: ast.AST) -> bool:
         """a completed normally on every path that reaches b"""
         try:
@@ -150,7 +159,7 @@ class Fn:
         atoms = []
         for test, pol, _ in self.guards(n):
             atoms += flatten_cond(test, pol)
-        return atoms
+        return unit_propagate(atoms)
 
     def lexical_guards(self, n: ast.AST, expand: bool = True) -> list[tuple[str, bool]]:
         """atoms contributed by the if/while statements that lexically enclose n (not by
@@ -167,14 +176,14 @@ class Fn:
                 atoms += atoms_of(p.test, pol, expand=ex)
             child = p
             p = getattr(p, "_parent", None)
-        return atoms
+        return unit_propagate(atoms)
 
     def guard_atoms_x(self, n: ast.AST) -> list[tuple[str, bool]]:
         """like guard_atoms, with single-definition locals inlined (robust to renaming locals)"""
         atoms = []
         for test, pol, _ in self.guards(n):
             atoms += atoms_of(test, pol, expand=lambda e: self.expand(e, 4))
-        return atoms
+        return unit_propagate(atoms)
 
     def has_guard(self, n: ast.AST, op: str, holds: bool, contains: Iterable[str]) -> bool:
         """some guard atom on every path to n is (after normalisation and inlining of locals) a
@@ -478,6 +487,46 @@ def atoms_of(test: ast.expr, pol: bool = True, expand=None) -> list[tuple[str, b
 
     rec(test, pol)
     return out
+
+
+_disj_cache: dict = {}
+
+
+def unit_propagate(atoms: list) -> list:
+    """add what a holding disjunction implies once all but one of its operands are refuted by the other atoms
+    (`(A or B)` with `not A` known gives B): `if a and b: X elif a: Y` then yields the same atoms for Y as
+    `if a: if b: X else: Y`.  Only adds implied atoms; never removes any."""
+    if not any(t.startswith("(") and " or " in t for t, p in atoms if p):
+        return atoms
+    atoms = list(atoms)
+    for _ in range(4):
+        known = set(atoms)
+        added = False
+        for t, p in list(atoms):
+            if not (p and t.startswith("(") and " or " in t):
+                continue
+            ops = _disj_cache.get(t)
+            if ops is None:
+                try:
+                    e = ast.parse(t, mode="eval").body
+                except SyntaxError:
+                    e = None
+                ops = []
+                if isinstance(e, ast.BoolOp) and isinstance(e.op, ast.Or):
+                    ops = [(flatten_cond(v, True), flatten_cond(v, False)) for v in e.values]
+                _disj_cache[t] = ops
+            if not ops:
+                continue
+            open_ = [pos for pos, neg in ops if not all(a in known for a in neg)]
+            if len(open_) == 1:
+                for a in open_[0]:
+                    if a not in known:
+                        atoms.append(a)
+                        known.add(a)
+                        added = True
+        if not added:
+            break
+    return atoms
 
 
 def _has_cmp(text: str) -> bool:
